@@ -16,6 +16,7 @@ const rangeDriverSrc = `package main
 
 import (
 	"fmt"
+	"math"
 
 	"github.com/goghcrow/go-co/seq"
 )
@@ -85,11 +86,17 @@ func key(k int) any {
 	if k == 0 {
 		return nil
 	}
+	if k == 4 {
+		return math.NaN() // not equal to itself: m[key] never finds the entry
+	}
 	return k
 }
 func unkey(k any) int {
 	if k == nil {
 		return 0
+	}
+	if f, ok := k.(float64); ok && f != f {
+		return 4
 	}
 	return k.(int)
 }
@@ -332,7 +339,7 @@ func visitsOnly(evs []any) string {
 // C10: built-in range iterators equal Go's range for every input.
 func C10(c *vf.Check) {
 	rnd := rand.New(rand.NewSource(c.Seed))
-	alphabet := []int{0, 65, 127, 128, 191, 194, 223, 224, 160, 237, 159, 240, 144, 244, 143, 255}
+	alphabet := []int{0, 65, 127, 128, 191, 194, 223, 224, 160, 237, 159, 240, 144, 244, 143, 255, 239, 189}
 	nrand := tier(c, 300, 3000)
 	var sb strings.Builder
 	for i := 0; i < nrand; i++ {
@@ -352,6 +359,42 @@ func C10(c *vf.Check) {
 		sb.Write(b)
 		sb.WriteByte('\n')
 	}
+	// boundary runes (validly encoded, among them U+FFFD itself), surrogates, overlong and out-of-range forms,
+	// truncated sequences: alone, embedded, doubled; and random mixtures of valid runes with stray bytes
+	special := [][]int{
+		{0xEF, 0xBF, 0xBD}, {0xC2, 0x80}, {0xDF, 0xBF}, {0xE0, 0xA0, 0x80}, {0xEF, 0xBF, 0xBF}, {0xF0, 0x90, 0x80, 0x80}, {0xF4, 0x8F, 0xBF, 0xBF},
+		{0xED, 0xA0, 0x80}, {0xED, 0xBF, 0xBF}, {0xC0, 0x80}, {0xC1, 0xBF}, {0xE0, 0x80, 0x80}, {0xF0, 0x80, 0x80, 0x80}, {0xF4, 0x90, 0x80, 0x80}, {0xF5, 0x80, 0x80, 0x80},
+		{0xEF, 0xBF}, {0xF0, 0x90, 0x80}, {0xE0, 0xA0}, {0xEE, 0x80, 0x80}, {0xEF, 0xBB, 0xBF},
+	}
+	emitStr := func(bs []int) {
+		b, _ := json.Marshal(J{"s": bs})
+		sb.Write(b)
+		sb.WriteByte('\n')
+	}
+	for _, sp := range special {
+		emitStr(sp)
+		emitStr(append(append([]int{97}, sp...), 98))
+		emitStr(append(append([]int{}, sp...), sp...))
+		emitStr(append(append([]int{0xFF}, sp...), 0x80))
+	}
+	nrune := tier(c, 200, 2000)
+	for i := 0; i < nrune; i++ {
+		var bs []int
+		for j, n := 0, 2+rnd.Intn(12); j < n; j++ {
+			switch rnd.Intn(5) {
+			case 0:
+				bs = append(bs, special[rnd.Intn(len(special))]...)
+			case 1:
+				bs = append(bs, 128+rnd.Intn(128))
+			default:
+				for _, b := range []byte(string(rune(rnd.Intn(0x110000)))) {
+					bs = append(bs, int(b))
+				}
+			}
+		}
+		emitStr(bs)
+	}
+	nrand += 4*len(special) + nrune
 	strFile := filepath.Join(c.S.Sub("strings"), "strings.ndjson")
 	writeFile(strFile, sb.String())
 
